@@ -3,7 +3,7 @@
    on every run (Gen/C12_api_table.v) and compared with the classes below (theorem ops_consistent in Properties_C12.v).
    Numeric parameter classes: 0 double, 1 int, 2 unsigned (index / size / count), 3 literal geometry (WKT table of the
    harness), 4 DE-9IM pattern, 5 geometry type code, 6 SRID, 7 size (small: it is a legitimate request for that
-   much memory), 8 dimension count. *)
+   much memory), 8 dimension count, 9 interrupt callback (table of the harness). *)
 From Coq Require Import ZArith List Bool String.
 From GeosV.C12 Require Import PoolDefs.
 Import ListNotations.
@@ -97,6 +97,11 @@ Definition ops : list opsig := [
   mkOp "GEOSGeom_createCurvePolygon_r" [AX KG; AX KG] fresh RCptr false;
   mkOp "GEOSGeom_createCurvePolygon_r" [AX KG; AX KG; AX KG] fresh RCptr false;
   mkOp "GEOSGeom_createCurvePolygon_r" [AX KG; AX KG; AX KG; AX KG] fresh RCptr false;
+  (* the interrupt API (global state, see C12/Interrupt.v); numeric class 9 = which callback the harness registers:
+     none / one that requests once / one that never requests / one that requests twice *)
+  mkOp "GEOS_interruptRegisterCallback" [AN 9] RNone RCother false;
+  mkOp "GEOS_interruptRequest" [] RNone RCvoid false;
+  mkOp "GEOS_interruptCancel" [] RNone RCvoid false;
   (* coordinate sequences *)
   mkOp "GEOSCoordSeq_create_r" [AN 7; AN 8] (RF KS []) RCptr false; mkOp "GEOSCoordSeq_clone_r" [AC KS] (RF KS []) RCptr false;
   mkOp "GEOSCoordSeq_destroy_r" [AD KS] RNone RCvoid false;
